@@ -1405,7 +1405,8 @@ class Config:  # pylint: disable=too-many-instance-attributes
             tree = field.include(self, formatter, filename, tree)
 
         for key, sub_schema in sub_schemas:
-            if tree.get(key):
+            # (a value that is not a map is rejected with a proper error by load_tree)
+            if isinstance(tree.get(key), dict):
                 tree[key] = self._process_includes(
                     sub_schema, tree[key], format_factory
                 )
